@@ -142,6 +142,7 @@ class DecPath:
         self.reads = []
         self.loops = []
         self.slices = []
+        self.blobs = []
         self.after_views = {}
         for e in p.events:
             # views havoc'ed after an inner loop remember what they were before it
@@ -166,6 +167,13 @@ class DecPath:
                     continue
                 self.reads.append({"pos": norm_pos(I, pos_add(v.lo, e["index"])), "len": 1, "loops": [l.split(":")[-1] for l in e["loops"]],
                                    "where": e["where"]})
+            elif k == "view-stored":
+                v = e["view"]
+                ln = norm_len(I, v.length) if v.length is not None else None
+                if ln is None and getattr(v, "end", None) is not None:
+                    ln = ("to", norm_pos(I, v.end[0]), norm_len(I, v.end[1]))
+                self.blobs.append({"key": e["key"], "pos": norm_pos(I, v.lo), "len": ln,
+                                   "loops": [l.split(":")[-1] for l in e["loops"]], "where": e["where"]})
             elif k == "view-slice":
                 v = e["view"]
                 if v.lo[0] is not None and v.lo[0][0] == "after" and getattr(v, "after_of", None) is not None:
@@ -289,6 +297,8 @@ def canon_len(ln, order):
         return ln
     if ln[0] == "expr":
         return ("expr", ln[1], tuple(sorted((c, canon_pos(p, order), n) for c, p, n in ln[2])), tuple(ln[3]))
+    if ln[0] == "to":
+        return ("to", simplify(canon_pos(ln[1], order)), canon_len(ln[2], order))
     return ln
 
 
@@ -346,6 +356,17 @@ def facts_of(I, dps):
         for s in dp.sites:
             pos = simplify(canon_pos(s["pos"], order)) if s["pos"][0] != "not-a-view" else s["pos"]
             key = ("site", s["table"], pos)
+            facts.add(key)
+            if key in site_conds:
+                site_conds[key] &= conds
+            else:
+                site_conds[key] = set(conds)
+        for b in dp.blobs:
+            key = ("blob", b["key"], simplify(canon_pos(b["pos"], order)), canon_len(b["len"], order))
+            try:
+                hash(key)
+            except TypeError:
+                continue
             facts.add(key)
             if key in site_conds:
                 site_conds[key] &= conds
